@@ -88,6 +88,9 @@ def cases_nested(tier):
     for inner_aborted in (False, True):
         for ok_type in (True, False):
             yield "inner_aborted=%s/result_ok=%s" % (inner_aborted, ok_type), {"inner_aborted": inner_aborted, "ok_type": ok_type}
+    # the inner plan has run under another outer plan before (a nested plan object reused by a second optimizer step)
+    for inner_aborted in (False, True):
+        yield "inner_aborted=%s/result_ok=True/inner-plan-used-before-by-another-plan" % inner_aborted, {"inner_aborted": inner_aborted, "ok_type": True, "reused": True}
 
 
 def scn_nested(T, case):
@@ -103,11 +106,27 @@ def scn_nested(T, case):
         plan_cls = sh.get(MP, "Plan")
     else:
         cls, plan_cls = T.func(MOPT, "DefaultOptimizerStep"), T.func(MP, "Plan")
-    octx = types.SimpleNamespace()
+    log = []
+    octx = types.SimpleNamespace(call_observers=lambda event: log.append("observers"))
     outer, inner = plan_cls(octx), plan_cls(octx)
+    outer._handlers = {"h": stepflow.Recorder("outer-handler", log)}
+    inner._handlers = {"h": stepflow.Recorder("inner-handler", log)}
+    if case.get("reused"):
+        previous = plan_cls(octx)
+        previous._handlers = {"h": stepflow.Recorder("previous-outer-handler", log)}
+        pstep = cls(previous)
+        pstep._nested_optimization = inner
+        inner.add_function(lambda plan, variables: FunctionResults(batch_id=None, metadata={}, evaluations=None, realizations=None, functions=None))
+        pstep._run_nested_plan(np.zeros(1))
     res = FunctionResults(batch_id=None, metadata={}, evaluations=None, realizations=None, functions=None) if case["ok_type"] else "not-a-result"
 
     def func(plan, variables):
+        # the inner plan emits an event while it runs: it must reach its own handlers, then those of the plan that runs it NOW
+        from ropt.enums import EventType
+        from ropt.plan import Event
+
+        del log[:]
+        plan.emit_event(Event(event_type=EventType.START_EVALUATION, config=None, source=None))
         if case["inner_aborted"]:
             plan.abort()
         return res
@@ -123,7 +142,8 @@ def scn_nested(T, case):
         return
     T.prove("C15.nested.returns_the_inner_result_and_its_abort_flag", got is res and aborted == case["inner_aborted"])
     T.prove("C15.nested.inner_abort_propagates_to_the_parent_plan", outer.aborted == case["inner_aborted"])
-    T.prove("C15.nested.inner_plan_is_attached_to_the_outer_plan", inner._parent is outer)
+    T.prove("C15.nested.events_of_the_inner_plan_reach_its_handlers_then_those_of_the_running_outer_plan_then_the_observers",
+            [n if isinstance(n, str) else n[0] for n in log] == ["inner-handler", "outer-handler", "observers"], repr(log))
 
 
 SCENARIOS = [
